@@ -25,13 +25,13 @@ B0 == [ mainnet |-> TRUE, gw |-> "gw", avs |-> <<>>, usd |-> {}, tasks |-> {}, r
         ops |-> {"o1", "o2", "o3"}, opt |-> {[o |-> "o1", a |-> "chain"], [o |-> "o3", a |-> "chain"]}, bls |-> {},
         ckey |-> [o1 |-> "k1", o3 |-> "k3"], vals |-> {"k1", "k3"}, nonce |-> [k1 |-> 0, k3 |-> 0], round |-> 2,
         pv |-> [assets |-> "gw", dogfood |-> "10", exomint |-> "20", feedistribution |-> "minute", oracle |-> "100"],
-        assoc |-> {}, newtoken |-> FALSE, chain102 |-> FALSE, tokmeta |-> FALSE, funded |-> FALSE ]
+        assoc |-> {}, natdel |-> {}, newtoken |-> FALSE, chain102 |-> FALSE, tokmeta |-> FALSE, funded |-> FALSE ]
 
 B1 == [ B0 EXCEPT !.avs = [cA |-> [owners |-> {"a1"}, task |-> "cA", ver |-> 1]], !.usd = {"cA"},
                    !.tasks = {[t |-> "cA", n |-> 1], [t |-> "cA", n |-> 2]},
                    !.results = {[o |-> "o2", t |-> "cA", n |-> 2]},
                    !.opt = @ \cup {[o |-> "o2", a |-> "cA"]}, !.bls = {"o2"},
-                   !.assoc = {"s2"}, !.funded = TRUE ]
+                   !.assoc = {"s2"}, !.natdel = {"s2"}, !.funded = TRUE ]
 
 BaseState(b, ch) == [ (IF b = "B0" THEN B0 ELSE B1) EXCEPT !.mainnet = (ch = "main") ]
 
@@ -63,20 +63,23 @@ OppCallers ==
   {Mk("evm", "run", f, s, o, "-", "-", "-") : f \in {"cA", "cB", "a2"}, s \in {"o2", "o3", "a2"}, o \in {"o2", "o3", "a2"}} \cup
   {Mk("evm", "tx", f, s, f, "-", "-", "-") : f \in {"cA", "a2", "o2"}, s \in {"o2", "o3", "a2"}}
 
-OpmCallers(e) ==
-  LET p == Principal(e) IN
-  {Mk("cosmos", "tx", "-", "-", "-", p, p, s) : s \in {"valid"} \cup BADSIGS} \cup
-  {Mk("cosmos", "tx", "-", "-", "-", p, "a2", s) : s \in {"valid", "nopub"}}
+\* every signed transaction is also offered to CheckTx (mempool admission)
+WithCheck(S) == S \cup {[c EXCEPT !.via = "check"] : c \in {x \in S : x.via = "tx"}}
 
-OraCallers ==
+OpmCallers(e) ==
+  LET p == Principal(e) IN WithCheck(
+  {Mk("cosmos", "tx", "-", "-", "-", p, p, s) : s \in {"valid"} \cup BADSIGS} \cup
+  {Mk("cosmos", "tx", "-", "-", "-", p, "a2", s) : s \in {"valid", "nopub"}})
+
+OraCallers == WithCheck(
   {Mk("oracle", "tx", "-", "-", "-", k, k, s) : k \in {"k1", "k9"}, s \in {"valid"} \cup BADSIGS} \cup
   {Mk("oracle", "tx", "-", "-", "-", "k1", "k9", "valid"), Mk("oracle", "tx", "-", "-", "-", "k9", "k1", "valid"),
-   Mk("oracle", "tx", "-", "-", "-", "k1", "k9", "nopub"), Mk("oracle", "tx", "-", "-", "-", "k1", "k1", "nopub")}
+   Mk("oracle", "tx", "-", "-", "-", "k1", "k9", "nopub"), Mk("oracle", "tx", "-", "-", "-", "k1", "k1", "nopub")})
 
-ParCallers ==
+ParCallers == WithCheck(
   {Mk("gov", "exec", "-", "-", "-", "gov", "-", "-")} \cup
   {Mk("cosmos", "tx", "-", "-", "-", "a2", "a2", s) : s \in {"valid", "forged"}} \cup
-  {Mk("cosmos", "tx", "-", "-", "-", "gov", "a2", s) : s \in {"valid", "nopub"} \cup BADSIGS}
+  {Mk("cosmos", "tx", "-", "-", "-", "gov", "a2", s) : s \in {"valid", "nopub"} \cup BADSIGS})
 
 CallersOf(e) ==
   CASE e \in GW   -> GwCallers
@@ -106,9 +109,11 @@ Init ==
 
 Do(e, c) ==
   /\ Len(hist) < MAXOPS
+  \* CheckTx works on the check state, which the model does not carry: only as a first step
+  /\ (c.via = "check" => hist = <<>>)
   /\ LET r == Call(st, e, c) IN
-     /\ (r.ok \/ nrej < REJBUDGET)
-     /\ nrej' = IF r.ok \/ REJBUDGET >= MAXOPS THEN nrej ELSE nrej + 1
+     /\ (r.st # st \/ r.mods # {} \/ nrej < REJBUDGET)
+     /\ nrej' = IF r.st # st \/ r.mods # {} \/ REJBUDGET >= MAXOPS THEN nrej ELSE nrej + 1
      /\ st' = r.st
      /\ last' = [e |-> e, c |-> c, pre |-> st, mods |-> r.mods, ok |-> r.ok]
      /\ hist' = Append(hist, [ev |-> "Call", a |-> [base |-> base, chain |-> chain, e |-> e, c |-> c]])
